@@ -78,7 +78,7 @@ Theorem C14_gff_row_roundtrip : forall r, wf_row r -> feature_from_line (render_
 Proof. exact gff_row_roundtrip. Qed.
 Print Assumptions C14_gff_row_roundtrip.
 (* a FEATURES block written from any features (any key that does not begin with a slash - 5'UTR and -10_signal included -, any
-   location text without blanks, on one line or continued over any number of further lines (repair D23), one or more one-line qualifiers /k=v or /k="v") is read back as exactly those features with
+   location text without blanks, on one line or continued over any number of further lines (repair D23), one or more qualifiers, each on one line or - a quoted value such as a long /translation - running over any number of lines /k=v or /k="v") is read back as exactly those features with
    exactly those qualifiers: no qualifier moves to a neighbouring feature *)
 Theorem C14_genbank_features_roundtrip : forall fs, fs <> [] -> Forall wf_feat fs -> parse_features (render_features fs) = Ok (map parsed fs).
 Proof. exact features_roundtrip. Qed.
@@ -243,3 +243,57 @@ Theorem C14_gff_bytes_to_regions_full : forall (regs : list (list N * (nat * nat
   bind (codes rs (length genome)) (fun inter => Ok (TopK.ssort cregion (fun a b => (cr_start a <? cr_start b)%Z) rs, inter)).
 Proof. exact gff_bytes_to_regions_full. Qed.
 Print Assumptions C14_gff_bytes_to_regions_full.
+(* D15 at the level of the whole file: the rows may stand in ANY order - the rows of one feature in any order, the rows of different
+   features interleaved or not; what matters is the order in which the IDs first appear and, per ID, the set of its rows *)
+From GF Require Import ConsumerGffAny.
+Theorem C14_gff_regions_any_order : forall genome (R : list gfeat) (gs : list group) (rs : list cregion),
+  Forall (fun r => is_cds_row r = true /\ exists i, row_id r = Some i) R ->
+  ids_in_order [] R = map fst gs ->
+  Forall (canonical R) gs ->
+  Forall2 (fun g r => region_from_gfeats genome (snd g) = Ok r) gs rs ->
+  Forall (fun r => cr_name r <> []) rs ->
+  regions_from_gff R genome =
+  bind (codes rs (length genome)) (fun inter => Ok (TopK.ssort cregion (fun a b => (cr_start a <? cr_start b)%Z) rs, inter)).
+Proof. exact regions_from_gff_any_order. Qed.
+Print Assumptions C14_gff_regions_any_order.
+Theorem C14_gff_file_row_order_irrelevant : forall genome (R R' : list gfeat) (gs : list group) (rs : list cregion),
+  Forall (fun r => is_cds_row r = true /\ exists i, row_id r = Some i) R -> Forall (fun r => is_cds_row r = true /\ exists i, row_id r = Some i) R' ->
+  ids_in_order [] R = map fst gs -> ids_in_order [] R' = map fst gs ->
+  Forall (canonical R) gs -> Forall (canonical R') gs ->
+  Forall2 (fun g r => region_from_gfeats genome (snd g) = Ok r) gs rs -> Forall (fun r => cr_name r <> []) rs ->
+  regions_from_gff R genome = regions_from_gff R' genome.
+Proof. exact gff_file_row_order_irrelevant. Qed.
+Print Assumptions C14_gff_file_row_order_irrelevant.
+(* the headline, from bytes to regions in both formats at once: a GenBank flat file (any other sections, CDS features written with the
+   location text of their AST features, ORIGIN) and a GFF3 file (version, regions, well-formed rows grouped by ID, ##FASTA) whose IDs
+   give the regions of the corresponding CDS features hand the variant caller the SAME regions - the GFF3 path then sorts them by
+   start - and the same non-coding positions; the caller is one function of the rows and these (C04, C05) *)
+From GF Require Import ConsumerBoth.
+Theorem C14_bytes_regions_gb_vs_gff : forall
+  (pre : list section) (items : list (bool * feat * list N * wfeat)) (n : nat) (olines : list (list (list N * list N))) (gblines : list (list N * bool))
+  (regs : list (list N * (nat * nat))) (rows : list grow) (hdr : list N) (chunks : list (list N)) (id : list N) (gs : list group) (gfflines : list (list N * bool)),
+  let rs := map (fun x => cregion_of (region_gb (fst (fst (fst x))) (snd (fst (fst x))) (snd (fst x)))) items in
+  let genome := degap (map upper (concat chunks)) in
+  Forall sec_ok pre -> Forall other_name pre -> items <> [] ->
+  Forall (fun x => writes_cds (fst (fst (fst x))) (snd (fst (fst x))) (snd (fst x)) (snd x)) items ->
+  Forall (Forall piece_ok) olines -> Forall body_line_ok (map origin_line olines) ->
+  Forall (fun le => ok_line (fst le)) gblines ->
+  map fst gblines = flatten (pre ++ [features_section (map snd items); origin_section n olines]) ->
+  Forall wf_region regs -> rows <> [] -> Forall wf_row rows ->
+  first_field hdr = Some id -> concat chunks <> [] -> Forall valid_chunk chunks -> Forall ok_line ((62%N :: hdr) :: chunks) ->
+  map feat_of rows = rows_of gs -> Forall group_ok gs -> NoDup (map fst gs) ->
+  Forall (fun le => ok_line (fst le)) gfflines ->
+  map fst gfflines = version_line :: map region_line regs ++ map render_row rows ++ bs "##FASTA" :: (62%N :: hdr) :: chunks ->
+  length (concat (map (fun l => concat (map snd l)) olines)) = length genome ->
+  Forall2 (fun g x => region_from_gfeats genome (snd g) = Ok x) gs rs -> Forall (fun x => cr_name x <> []) rs ->
+  forall inter, codes rs (length genome) = Ok inter ->
+  regions_of_genbank_text (FastaLayout.render gblines) = Ok (rs, inter) /\
+  regions_of_gff_text (FastaLayout.render gfflines) = Ok (TopK.ssort cregion (fun a b => (cr_start a <? cr_start b)%Z) rs, inter).
+Proof. exact bytes_regions_gb_vs_gff. Qed.
+Print Assumptions C14_bytes_regions_gb_vs_gff.
+(* what `codes` leaves over: exactly the positions 1..n that lie in no region, ascending *)
+Theorem C14_codes_spec : forall (rs : list cregion) (n : nat) (inter : list Z), codes rs n = Ok inter ->
+  (forall p, In p inter <-> (1 <= p <= Z.of_nat n)%Z /\ ~ In p (concat (map cr_pos rs))) /\
+  inter = filter (fun p => negb (existsb (Z.eqb p) (concat (map cr_pos rs)))) (map (fun i => Z.of_nat (S i)) (seq 0 n)).
+Proof. exact codes_spec. Qed.
+Print Assumptions C14_codes_spec.
